@@ -216,6 +216,14 @@ fn job_front(job: &J) -> J {
     if want("positions") {
         res.insert("positions".into(), J::Array(collect_positions(&items)));
     }
+    if want("tokens") {
+        let (mut tokens, _) = crate::parser::lex::lex(&vfs_path, src);
+        let mut out = vec![];
+        while let Some(t) = tokens.pop() {
+            out.push(json!([t.position.start_offset, t.position.end_offset]));
+        }
+        res.insert("tokens".into(), J::Array(out));
+    }
     if want("comments") {
         let (tokens, _) = crate::parser::lex::lex(&vfs_path, src);
         res.insert("comments".into(), J::Array(collect_comments(tokens)));
@@ -620,6 +628,136 @@ fn job_chains(job: &J) -> J {
     }
 }
 
+/// Run the whole front end on `src` the way the CLI subcommands do
+/// (`check`: lex, parse, and static checks only when there are no
+/// parse errors; `format`; `reftest-ast` rendering). Returns
+/// `(parse_error_count, checked, Err(stage, panic message))`.
+fn front_all(src: &str) -> (usize, bool, Option<(&'static str, String)>) {
+    let path = PathBuf::from("/verif_scratch/main.gdn");
+    let mut n_errors = 0;
+    let mut checked = false;
+    let r = verif_rt::guarded(|| {
+        let mut id_gen = IdGenerator::default();
+        let (vfs, vfs_path) = Vfs::singleton(path.clone(), src.to_owned());
+        let (items, errors) = parse_toplevel_items(&vfs_path, src, &mut id_gen);
+        let _ = format!("{items:#?}").len();
+        (items, errors.len(), id_gen, vfs, vfs_path)
+    });
+    let (items, id_gen, vfs, vfs_path) = match r {
+        Ok((items, n, id_gen, vfs, vfs_path)) => {
+            n_errors = n;
+            (items, id_gen, vfs, vfs_path)
+        }
+        Err(msg) => return (0, false, Some(("parse", msg))),
+    };
+    if n_errors == 0 {
+        checked = true;
+        let r = verif_rt::guarded(|| {
+            let mut env = Env::new(id_gen, vfs);
+            let ns = env.get_or_create_namespace(&path);
+            let (mut diags, _) = load_toplevel_items(&items, &mut env, Rc::clone(&ns));
+            diags.extend(check_toplevel_items_in_env(&vfs_path, &items, &env, ns));
+            diags.len()
+        });
+        if let Err(msg) = r {
+            return (n_errors, checked, Some(("check", msg)));
+        }
+    }
+    if let Err(msg) = verif_rt::guarded(|| crate::format::format(src, &path).len()) {
+        return (n_errors, checked, Some(("format", msg)));
+    }
+    (n_errors, checked, None)
+}
+
+/// C01 in-process loop: every sequence of `len` alphabet elements whose
+/// first element has index `first`, joined by every combination of the
+/// given separators.
+fn job_front_enum(job: &J) -> J {
+    let alphabet: Vec<String> = job["alphabet"].as_array().map(|a| a.iter().filter_map(|x| x.as_str().map(|s| s.to_owned())).collect()).unwrap_or_default();
+    let seps: Vec<String> = job["seps"].as_array().map(|a| a.iter().filter_map(|x| x.as_str().map(|s| s.to_owned())).collect()).unwrap_or_else(|| vec![String::new()]);
+    let len = job["len"].as_u64().unwrap_or(1) as usize;
+    let first = job["first"].as_u64().unwrap_or(0) as usize;
+    let k = alphabet.len();
+    let ns = seps.len();
+    let mut word = vec![0usize; len];
+    word[0] = first;
+    let mut count = 0u64;
+    let mut parse_ok = 0u64;
+    let mut failures = vec![];
+    let mut n_fail = 0u64;
+    let mut msgs: std::collections::BTreeMap<String, u64> = Default::default();
+    loop {
+        // every separator combination for the len-1 gaps
+        let gaps = len.saturating_sub(1);
+        let mut sepw = vec![0usize; gaps];
+        loop {
+            let mut src = String::new();
+            for (i, w) in word.iter().enumerate() {
+                if i > 0 {
+                    src.push_str(&seps[sepw[i - 1]]);
+                }
+                src.push_str(&alphabet[*w]);
+            }
+            let (nerr, _checked, fail) = front_all(&src);
+            count += 1;
+            if nerr == 0 {
+                parse_ok += 1;
+            }
+            if let Some((stage, msg)) = fail {
+                n_fail += 1;
+                *msgs.entry(format!("{stage}: {msg}")).or_default() += 1;
+                if failures.len() < 40 {
+                    failures.push(json!({"src": src, "stage": stage, "panic": msg}));
+                }
+            }
+            let mut i = gaps;
+            let mut done = true;
+            while i > 0 {
+                i -= 1;
+                sepw[i] += 1;
+                if sepw[i] < ns {
+                    done = false;
+                    break;
+                }
+                sepw[i] = 0;
+            }
+            if done {
+                break;
+            }
+        }
+        let mut i = len;
+        loop {
+            if i <= 1 {
+                return json!({"count": count, "parse_ok": parse_ok, "n_fail": n_fail, "failures": failures, "messages": msgs});
+            }
+            i -= 1;
+            word[i] += 1;
+            if word[i] < k {
+                break;
+            }
+            word[i] = 0;
+        }
+    }
+}
+
+/// Front end on a list of sources; only failures are returned.
+fn job_front_many(job: &J) -> J {
+    let empty = vec![];
+    let srcs = job["srcs"].as_array().unwrap_or(&empty);
+    let mut failures = vec![];
+    let mut parse_ok = 0;
+    for (i, s) in srcs.iter().enumerate() {
+        let (nerr, _c, fail) = front_all(s.as_str().unwrap_or(""));
+        if nerr == 0 {
+            parse_ok += 1;
+        }
+        if let Some((stage, msg)) = fail {
+            failures.push(json!({"i": i, "stage": stage, "panic": msg}));
+        }
+    }
+    json!({"count": srcs.len(), "parse_ok": parse_ok, "failures": failures})
+}
+
 fn handle_job(job: &J) -> J {
     let op = job["op"].as_str().unwrap_or("");
     let r = verif_rt::guarded(|| match op {
@@ -628,6 +766,8 @@ fn handle_job(job: &J) -> J {
         "run" => job_run(job),
         "session" => job_session(job),
         "ast_eq" => job_ast_eq(job),
+        "front_enum" => job_front_enum(job),
+        "front_many" => job_front_many(job),
         "ast_expect" => job_ast_expect(job),
         "chains" => job_chains(job),
         _ => json!({"error": format!("unknown op {op}")}),
